@@ -35,7 +35,7 @@ def restrict_cond(key, val):
 class Check:
     id = PROP
     level = "exploration"
-    cases = {"quick": 700, "thorough": 30000}
+    cases = {"quick": 4000, "thorough": 40000}
     rule = ("case = (tree with 0/1/many groups, empty-string keys, skewed group sizes, overlaid uid/mode answers) x (1-2 grouping keys from ext/dir/is_dir/mode/uid/length(name), aggregate list, optional WHERE, "
             "optional ORDER BY on a selected key or integer aggregate) ; each case is run under 3 entropy seeds (the RandomState of the partition HashMap is served by the simulator) and 2 arrival orders, "
             "plus the ungrouped key query, the ungrouped aggregate query and one restricted aggregate query per expressible group. Non-trivial = non-default environment choice reached fselect; "
@@ -57,7 +57,10 @@ class Check:
             # chosen so that distinct key tuples collide when joined
             t = tops[0]
             sep = rng.choice([",", ",", ":", "|", ";", " ", "/"[0:0] or "-"])
-            for pth, typ in ((t + "/a" + sep + "b", "dir"), (t + "/a" + sep + "b/x.c", "file"), (t + "/a", "dir"), (t + "/a/y.b" + sep + "c", "file"), (t + "/a/z.b" + sep + "c", "file")):
+            kit = ((t + "/ka" + sep + "b", "dir"), (t + "/ka" + sep + "b/x.c", "file"), (t + "/ka", "dir"), (t + "/ka/y.b" + sep + "c", "file"), (t + "/ka/z.b" + sep + "c", "file"))
+            if any(pth in have for pth, _ in kit):
+                kit = ()
+            for pth, typ in kit:
                 if pth not in have:
                     have.add(pth)
                     world["nodes"].append({"path": pth, "type": typ, **({"content": "x" * rng.choice([1, 10])} if typ == "file" else {})})
